@@ -44,6 +44,57 @@ CHECKS = {
             'overlap for sizes 1..5 and operators >=,>,=, including every subset pair of a small '
             'vocabulary',
             'two-path consistency monitor (filter_candset vs filter_pair) + independent exact overlap oracle, exhaustive small vocabulary'),
+    'C07': ('join result compared with apply_matcher(filter_tables(...)) for every measure, operator, '
+            'first-stage filter (Size, Prefix, Position, Overlap>=1), independent n_jobs of both stages, '
+            'random tables and the bundled person data; both-empty and straddling pairs excluded by the '
+            'model; edit distance: containment plus equality on pairs sharing a q-gram',
+            'three-path consistency monitor (join vs filter+matcher) with model-decided exclusions'),
+    'C08': ('every entry point x every missing-value distribution (none, one side, both, all, single) '
+            'run with allow_missing False and True: exclusion, exactly-once inclusion with NaN score, '
+            'unchanged present part (metamorphic), normal return; contract on the missing-pair builder',
+            'boundary oracle + metamorphic False/True comparison over an enumerated pattern matrix'),
+    'C09': ('tables rich in values that tokenize to nothing driven through the four ratio joins, '
+            'overlap_join and the four safe filters (pair/tables/candset) for both allow_empty values, '
+            'thresholds incl. 1.0, all operators and n_jobs up to 20',
+            'boundary oracle on both-empty / one-empty pairs decided by fresh tokenization'),
+    'C10': ('every n_jobs in 1..R+3 and {-1,-2,-100,64} compared with n_jobs=1 for every entry point '
+            '(threading backend with injected per-job delays, loky sample), presentation variants '
+            '(row permutation, index relabelling, extra columns, repeated call), digests of a fixed '
+            'case list across processes with four PYTHONHASHSEEDs, _id numbering, dispatch trace of '
+            'the chunks handed to jobs, split_table driven exhaustively under its partition contract',
+            'metamorphic schedule/presentation monitors + joblib dispatch trace + exhaustive split_table contract'),
+    'C11': ('columns compared with an independent implementation of the documented rule and every '
+            'projected cell compared with the source row found through the key, for all joins and '
+            'filter_tables, shuffled column order, all dtypes, all out-attr shapes, prefixes, and rows '
+            'of the normal / empty-set / missing-value branches (each forced non-empty)',
+            'boundary oracle on columns and projected cells per producing branch'),
+    'C12': ('histories of 6-16 calls over shared DataFrames and shared tokenizers (incl. the default '
+            'tokenizer object of edit_distance_join, re-classed to a traced tokenizer): deep input '
+            'snapshots around every call, tokenizer configuration compared on normal return with flag '
+            'flips counted, every result compared with the same call in isolation on fresh objects',
+            'history monitor: deep snapshots + tokenizer trace + isolated re-execution'),
+    'C13': ('transposition, threshold refinement and operator partition checked on random tables, edit '
+            'distance neighbourhoods, the bundled person data and samples of the bundled books data '
+            '(thorough: 8000-row Zipf tables); straddling / both-empty pairs excluded lazily by the model',
+            'metamorphic relations between related real executions'),
+    'C14': ('exhaustive size characterisation (every count pair <= N at every grid threshold for '
+            'JACCARD/COSINE/DICE; every string-length pair for EDIT_DISTANCE x k x q x padding) through '
+            'filter_tables and filter_pair with two different token assignments; no-common-token and '
+            'Position ⊆ Prefix, Size refinement on random tables for all measures',
+            'exhaustive grid oracle for SizeFilter + boundary oracles for no-common-token and refinement'),
+    'C15': ('the complete rejection matrix (entry point x applicable invalid argument kind) with random '
+            'valid contexts: documented exception class, no tokenize() before rejection (traced '
+            'tokenizer), arguments and tokenizer configuration unchanged; acceptance of every entry '
+            'point on 25 degenerate shape combinations x dtype x allow_missing x n_jobs',
+            'enumerated rejection/acceptance matrix with tokenizer trace and argument snapshots'),
+    'C16': ('series_to_str / dataframe_column_to_str compared with a reference conversion for every '
+            '(column kind, NaN pattern, inplace, return_col) combination with input snapshots; the '
+            'in-place conversion of a bare numeric Series under pandas 3 is an open known finding',
+            'boundary reference-conversion oracle over an enumerated combination matrix'),
+    'C17': ('profile rows compared with independent counts, parsed percentages and comment rules on '
+            'small mixed-dtype tables and on 20 001..200 000-row tables with exactly one duplicate '
+            'and/or one or two missing values (the rounding regime)',
+            'boundary oracle with independent counts incl. the >20000-row rounding regime'),
 }
 
 NOT_YET = 'check not yet built in this session'
